@@ -99,7 +99,7 @@ Proof.
 Qed.
 
 Lemma nv_failed :
-  get_failed wit_cfg (fst (run wit_cfg init nv_ops)) = [(0, 0, 1); (1, 0, 3); (1, 0, 3)] /\
+  get_failed wit_cfg (fst (run wit_cfg init nv_ops)) = [(0, 0, 1); (1, 0, 3); (1, 0, 3); (2, 1, 1); (3, 1, 1)] /\
   pending_pieces (fst (run wit_cfg init nv_ops)) 1 = [2; 3].
 Proof. vm_compute. auto. Qed.
 
